@@ -1,15 +1,18 @@
 #!/bin/bash
-# selftest.sh [ids...]: must-fail corpus. Applies each kept seeded change to /repo (must be clean), runs the
-# quick check of its property and expects exit 1 with a VIOLATION line; restores /repo. Prints one line per change.
+# selftest.sh [ids...]: must-fail corpus. Applies each kept seeded change to a scratch copy of /repo under
+# /tmp (never to /repo), runs the quick check of its property on the copy and expects exit 1 with a
+# VIOLATION line. Prints one line per change; exit 1 if any change is missed.
 set -u
-if [ -n "$(git -C /repo status --porcelain)" ]; then echo "REPO NOT CLEAN; refusing"; exit 3; fi
 ids="$@"; [ -z "$ids" ] && ids=$(ls /verif/seeded | grep -v "^_")
 bad=0
 for id in $ids; do
   p=$(jq -r .property /verif/seeded/$id/meta.json)
-  git -C /repo apply /verif/seeded/$id/patch.diff || { echo "$id APPLY-FAILED"; bad=1; continue; }
-  out=$(timeout 900 /verif/bin/govc check --property $p --tier quick --no-evidence 2>&1); rc=$?
-  git -C /repo checkout -- .
+  WT=$(mktemp -d /tmp/selftest_XXXXXX)
+  cp -r /repo/. $WT/
+  ( cd $WT && git checkout -q -- . && git clean -fdq )
+  if ! git -C $WT apply /verif/seeded/$id/patch.diff; then echo "$id APPLY-FAILED"; bad=1; rm -rf $WT; continue; fi
+  out=$(timeout 900 /verif/bin/govc check --property $p --tier quick --no-evidence --repo $WT 2>&1); rc=$?
+  rm -rf $WT
   n=$(echo "$out" | grep -c "^VIOLATION property=$p ")
   if [ $rc -eq 1 ] && [ $n -ge 1 ]; then echo "$id $p caught ($n violations)"; else echo "$id $p MISSED (exit $rc)"; bad=1; fi
 done
